@@ -213,7 +213,46 @@ def run_job(spec):
                 elif status == 'unknown':
                     res['inconclusive'].append('obligation %s: solver unknown' % label)
                 else:
+                    hint = getattr(po, 'refute_hints', {}).get(label)
+                    if hint is not None:
+                        # the harness knows a clear-cut region for this obligation: look for the refutation there first
+                        try:
+                            st_h, m_h = ctx.prove(core.sor(prop, core.snot(hint)))
+                            if st_h == 'refuted' and m_h is not None:
+                                model = m_h
+                        except Exception:
+                            pass
                     v = confirm(spec, po, label, model)
+                    # a refuting model can fail to reproduce by coincidence (e.g. an integer wrap whose result happens to have
+                    # the same magnitude): ask the solver for up to three further, different refutations before giving up
+                    tries = 0
+                    while v['kind'] == 'nonrepro' and 'UB-CANDIDATE' not in v['detail'] and tries < 3:
+                        tries += 1
+                        try:
+                            eqs = []
+                            from z3 import z3util
+                            pz = core._b(prop)
+                            pvars = z3util.get_vars(pz) if isinstance(pz, z3.ExprRef) else []
+                            for x in pvars:            # the next refutation must differ on a variable the obligation talks about
+                                if x.sort().kind() in (z3.Z3_INT_SORT, z3.Z3_REAL_SORT):
+                                    eqs.append(x == model.eval(x, model_completion=True))
+                            if not eqs:
+                                break
+                            status2, model2 = ctx.prove(core.sor(prop, core.SBool.mk(z3.And(*eqs))))
+                        except Exception:
+                            if os.environ.get('VERIF_DEBUG'):
+                                traceback.print_exc()
+                            break
+                        if os.environ.get('VERIF_DEBUG'):
+                            print('retry', tries, status2, file=sys.stderr)
+                        if status2 != 'refuted' and status2 != 'disproved' and model2 is None:
+                            break
+                        if model2 is None:
+                            break
+                        model = model2
+                        v2 = confirm(spec, po, label, model)
+                        if v2['kind'] != 'nonrepro':
+                            v = v2
                     if v['kind'] == 'violation':
                         res['violations'].append(v)
                     elif v['kind'] == 'harness_error':
